@@ -91,6 +91,25 @@ func driveWalk(c *Ctx) error {
 				}
 				um["pvm"] = l
 				um["re"] = Project(uv.MarkWithPaths(pvm))
+				// the same list of paths used a second time, and the list itself afterwards
+				um["re2"] = Project(uv.MarkWithPaths(pvm))
+				l2 := []any{}
+				for _, e := range pvm {
+					l2 = append(l2, J{"p": ProjectPath(e.Path), "m": markNames(e.Marks)})
+				}
+				um["pvm2"] = l2
+				// the list in the opposite order (the order of the entries carries no meaning), used twice
+				rev := make([]cty.PathValueMarks, len(pvm))
+				for i, e := range pvm {
+					rev[len(pvm)-1-i] = e
+				}
+				um["re3"] = Project(uv.MarkWithPaths(rev))
+				um["re4"] = Project(uv.MarkWithPaths(rev))
+				l3 := []any{}
+				for _, e := range rev {
+					l3 = append(l3, J{"p": ProjectPath(e.Path), "m": markNames(e.Marks)})
+				}
+				um["rev2"] = l3
 			})
 			if p {
 				um = J{"ok": false, "msg": trunc(msg)}
